@@ -48,7 +48,8 @@ class EnumStats:
 
 
 def transform_counts(path_to_csv, label, column_name='count', full=False):
-    df = pd.read_csv(path_to_csv, sep='\t')
+    # feature ids are arbitrary strings: 'NA', 'null', 'nan' etc. must not be read as missing values
+    df = pd.read_csv(path_to_csv, sep='\t', keep_default_na=False, na_values=[])
     df_features = df.copy() if full else df[:-3].copy()
     df_features.rename(columns={column_name: label}, inplace=True)
     return df_features
